@@ -59,6 +59,17 @@ def models(tier):
     for c_i in (0, 1):
         a3 += [("m", c_i, "cer_p0"), ("m", c_i, "cea_ok"), ("m", c_i, "dpr"), ("eof", c_i)]
     out.append(monitors.ScenarioModel("persistent-peer-connecting-inbound", cfg(True, False, 2), a3, MONS, max_socks=3, start_plan=["refused"]))
+    # both ends dial each other; the peer spells its name in capitals in its CEA / CER (DiameterIdentity compares case-insensitively);
+    # either connection is lost while the other one lives on: the peer still has a connection and must not be dialled again
+    for always in (False, True):
+        a4 = [("tick", 1), ("m", 0, "cea_okcase"), ("m", 0, "cea_ok"), ("eof", 1), ("eof", 0), ("m", 1, "dpr"), ("m", 0, "dpr"), ("rst", 1)]
+        # (a) the peer's own connection completes its CER while the CEA on the dialled one is still outstanding
+        out.append(monitors.ScenarioModel(f"mutual-dial-peer-name-in-capitals-always={always}", cfg(True, always, 2), a4, MONS, max_socks=3, start_plan=["ok"],
+                                          prelude=[("accept",), ("m", 1, "cer_p0")]))
+        # (b) the dialled connection is ready first, the peer's own connection (name in capitals in its CER as well) follows
+        a5 = [("tick", 1), ("accept",), ("m", 1, "cer_p0"), ("m", 1, "cer_capsp0"), ("eof", 1), ("eof", 0), ("m", 1, "dpr"), ("m", 0, "dpr")]
+        out.append(monitors.ScenarioModel(f"mutual-dial-dialled-first-peer-name-in-capitals-always={always}", cfg(True, always, 2), a5, MONS, max_socks=3,
+                                          start_plan=["ok"], prelude=[("m", 0, "cea_okcase")]))
     # a second deterministic scheduling policy (the I/O thread runs only when nothing else can): thorough tier
     if tier == "thorough":
         out = monitors.with_io_last(out)
